@@ -442,7 +442,9 @@ type manualCtx struct {
 	err  error
 }
 
-func newManualCtx() *manualCtx { return &manualCtx{Context: context.Background(), done: make(chan struct{})} }
+func newManualCtx() *manualCtx {
+	return &manualCtx{Context: context.Background(), done: make(chan struct{})}
+}
 func (m *manualCtx) Done() <-chan struct{} { return m.done }
 func (m *manualCtx) Err() error {
 	m.mu.Lock()
